@@ -219,11 +219,19 @@ class _FindChangeDependencies:
         for resource in changes.get_changed_resources():
             if resource is None:
                 continue
-            if resource in self.changed_resources:
-                return True
             for changed in self.changed_resources:
-                if resource.is_folder() and resource.contains(changed):
-                    return True
-                if changed.is_folder() and changed.contains(resource):
+                if _paths_overlap(resource.path, changed.path):
                     return True
         return False
+
+
+def _paths_overlap(path1, path2):
+    """Whether the paths are the same or one of them lies below the other
+
+    The comparison is by path only: a `File` and a `Folder` object
+    for the same path (a folder created where a file used to be) do
+    name the same place in the project.
+    """
+    if path1 == path2 or path1 == "" or path2 == "":
+        return True
+    return path1.startswith(path2 + "/") or path2.startswith(path1 + "/")
